@@ -979,6 +979,135 @@ Section MuxDeadlock.
   Proof. vm_compute. repeat split. Qed.
 End MuxDeadlock.
 
+(** * The same mechanism on a plain join of two parallel sources (finding F13', reproduced on
+    the unmodified engine: 2 hosts, `left.join(right)`)
+
+    Producer blocks L and R (sources, 3 replicas each on host X), the two-input block B with
+    replicas a < b on host Y. All messages of L's replicas for a and b travel through ONE
+    connection (L->B, X->Y), served on host Y by the demultiplexer DL; R's through the
+    connection (R->B, X->Y) with its own demultiplexer DR. All channels and both connections
+    have capacity 1.
+
+    nodes   0,1,2 = L0,L1,L2   3,4,5 = R0,R1,R2   6 = DL   7 = DR   8 = a   9 = b
+    chans   0 = a.left  1 = b.left  2 = a.right  3 = b.right  4 = conn L->B  5 = conn R->B
+
+    In the engine the order in which a replica's End sends a marker to its consumers is not
+    fixed: `Batcher::enqueue` flushes a destination early when its batch fills while End is
+    still enqueueing the marker for the others. At marker level the order is the order of
+    [r_outs]: L's replicas send each marker to a, then b; R's replicas to b, then a.
+
+    The schedule: L0 and L1 complete their FlushAndRestart broadcast, L2 delivers its
+    FlushAndRestart to a only; a's left side has now ended the round, so a reads only its right
+    side. L0's Terminate fills a's left channel, DL is blocked handing over L1's Terminate, and
+    L2's FlushAndRestart for b is behind it in the connection. Symmetrically on the right: b's
+    right side has ended, b reads only its left side, its right channel holds R0's Terminate,
+    DR is blocked with R1's Terminate, R2's FlushAndRestart for a is behind it. So a waits for
+    R2's FlushAndRestart (stuck behind DR's blocked message, which waits for b), b waits for
+    L2's FlushAndRestart (stuck behind DL's blocked message, which waits for a).
+
+    With capacity 1 this is the smallest instance of the shape: after a's left side has ended,
+    two Terminates for a are needed (one fills the channel, one blocks DL) from two replicas
+    that have completed their FlushAndRestart broadcast, and the FlushAndRestart for b behind
+    them must come from a third replica. *)
+Section MuxJoinDeadlock.
+  Definition jL : rcfg := {| r_kind := KSrc; r_outs := [(4, 0); (4, 1)]; r_douts := [] |}.
+  (** the right producers; [same_order = false]: to b first, then a (the deadlocking order) *)
+  Definition jR (same_order : bool) : rcfg :=
+    {| r_kind := KSrc;
+       r_outs := if same_order then [(5, 2); (5, 3)] else [(5, 3); (5, 2)];
+       r_douts := [] |}.
+  Definition jDL : rcfg := {| r_kind := KDemux 4; r_outs := []; r_douts := [] |}.
+  Definition jDR : rcfg := {| r_kind := KDemux 5; r_outs := []; r_douts := [] |}.
+  Definition jBa : rcfg := {| r_kind := KOp2 0 3 2 3; r_outs := []; r_douts := [] |}.
+  Definition jBb : rcfg := {| r_kind := KOp2 1 3 3 3; r_outs := []; r_douts := [] |}.
+
+  Definition mux_join_cfg (same_order : bool) (i : nat) : rcfg :=
+    match i with
+    | 0 | 1 | 2 => jL | 3 | 4 | 5 => jR same_order | 6 => jDL | 7 => jDR | 8 => jBa | _ => jBb
+    end.
+
+  Definition mux_join_gen (same_order : bool) : net emsg rstate :=
+    {| n_nodes := 10; n_chans := 6;
+       n_cons := fun c => match c with 0 => 8 | 1 => 9 | 2 => 8 | 3 => 9 | 4 => 6 | _ => 7 end;
+       n_prod := fun c i => match c with
+                            | 0 | 1 => Nat.eqb i 6
+                            | 2 | 3 => Nat.eqb i 7
+                            | 4 => Nat.leb i 2
+                            | _ => Nat.leb 3 i && Nat.leb i 5
+                            end;
+       n_cap := fun _ => 1;
+       n_sem := fun i => r_sem (mux_join_cfg same_order i);
+       n_init := {| nodes := [r_src_init [] jL; r_src_init [] jL; r_src_init [] jL;
+                              r_src_init [] (jR same_order); r_src_init [] (jR same_order);
+                              r_src_init [] (jR same_order);
+                              r_demux_init 6; r_demux_init 6;
+                              r_op_init jBa; r_op_init jBb];
+                    chans := [[]; []; []; []; []; []] |} |}.
+
+  Definition mux_join_net : net emsg rstate := mux_join_gen false.
+
+  Lemma mux_join_gen_ok : forall o, net_ok (mux_join_gen o).
+  Proof.
+    intros o. split; [|split; [|split]]; try reflexivity.
+    - intros c Hc. cbn in Hc. do 6 (destruct c as [|c]; [cbn; lia|]). lia.
+    - intros c i Hc Hp. cbn in Hc.
+      do 5 (destruct c as [|c];
+            [cbn in *; try apply Nat.eqb_eq in Hp; try apply Nat.leb_le in Hp; lia|]).
+      destruct c as [|c]; [|lia]. cbn in *.
+      apply andb_true_iff in Hp. destruct Hp as [_ Hp]. apply Nat.leb_le in Hp. lia.
+  Qed.
+
+  Definition mux_join_schedule : list action :=
+    [ (* L0, L1: FlushAndRestart to a and b; L2: to a only: a's left side has ended *)
+      ASend 0; ARecv 6 4; ASend 6; ARecv 8 0;   ASend 0; ARecv 6 4; ASend 6; ARecv 9 1;
+      ASend 1; ARecv 6 4; ASend 6; ARecv 8 0;   ASend 1; ARecv 6 4; ASend 6; ARecv 9 1;
+      ASend 2; ARecv 6 4; ASend 6; ARecv 8 0;
+      (* L0's Terminate fills a.left, L1's blocks DL, L2's FlushAndRestart for b is behind it *)
+      ASend 0; ARecv 6 4; ASend 6;   ASend 1; ARecv 6 4;   ASend 2;
+      (* R0, R1: FlushAndRestart to b and a; R2: to b only: b's right side has ended *)
+      ASend 3; ARecv 7 5; ASend 7; ARecv 9 3;   ASend 3; ARecv 7 5; ASend 7; ARecv 8 2;
+      ASend 4; ARecv 7 5; ASend 7; ARecv 9 3;   ASend 4; ARecv 7 5; ASend 7; ARecv 8 2;
+      ASend 5; ARecv 7 5; ASend 7; ARecv 9 3;
+      (* R0's Terminate fills b.right, R1's blocks DR, R2's FlushAndRestart for a is behind it *)
+      ASend 3; ARecv 7 5; ASend 7;   ASend 4; ARecv 7 5;   ASend 5 ].
+
+  Definition mux_join_dead : state emsg rstate :=
+    Eval vm_compute in
+      match exec_all mux_join_net (n_init mux_join_net) mux_join_schedule with
+      | Some s => s | None => n_init mux_join_net end.
+
+  Lemma mux_join_dead_reached :
+    exec_all mux_join_net (n_init mux_join_net) mux_join_schedule = Some mux_join_dead.
+  Proof. vm_compute. reflexivity. Qed.
+
+  Theorem mux_join_deadlock : exists s, reachable mux_join_net s /\ stuck mux_join_net s.
+  Proof.
+    exists mux_join_dead. split.
+    - eapply exec_all_reachable. exact mux_join_dead_reached.
+    - apply disabled_stuck.
+      + vm_compute. reflexivity.
+      + intros Hfin. specialize (Hfin 0 _ eq_refl). vm_compute in Hfin. discriminate.
+  Qed.
+
+  (** the blocked state: every producer is blocked on its full connection (L0, L1 with the
+      Terminate for b, L2 with the Terminate for a; R0, R1 with the Terminate for a, R2 with the
+      Terminate for b); DL is blocked with a Terminate for a on a's full left channel, DR with a
+      Terminate for b on b's full right channel; the connections hold the FlushAndRestart of
+      L2 for b and of R2 for a; a has all 3 FlushAndRestart on the left and misses one on the
+      right: it wants only its (empty) right channel; b the other way round *)
+  Lemma mux_join_dead_shape :
+    map r_pending (nodes mux_join_dead) =
+      [Some (4, (1, MT)); Some (4, (1, MT)); Some (4, (0, MT));
+       Some (5, (2, MT)); Some (5, (2, MT)); Some (5, (3, MT));
+       Some (0, (0, MT)); Some (3, (3, MT)); None; None] /\
+    chans mux_join_dead = [[(0, MT)]; []; []; [(3, MT)]; [(1, MF)]; [(2, MF)]] /\
+    map (fun i => wants (n_sem mux_join_net i) (nth i (nodes mux_join_dead) (r_demux_init 0))) [8; 9] =
+      [[2]; [1]] /\
+    map (fun i => let x := nth i (nodes mux_join_dead) (r_demux_init 0) in (r_mfl x, r_mfr x)) [8; 9] =
+      [(0, 1); (1, 0)].
+  Proof. vm_compute. repeat split. Qed.
+End MuxJoinDeadlock.
+
 (** * Checking the obligations on a concrete finite network by enumeration *)
 Section FiniteCheck.
   Context {msg st : Type} (NW : net msg st).
